@@ -58,6 +58,13 @@ def run(c):
         for v in hdr_variants_any(p["inp"]):
             cases.append(dict(k="dechold", entry="plain", inp=p["inp"], inp2=v))
             cases.append(dict(k="dechold", entry="plain", inp=v, inp2=p["inp"]))
+    # the routed minimal instances inside a security-protected envelope (header types 1..4, reserved 5, 15), through the plain and
+    # the family entry points: routing looks at the octets in front, never at a message further inside
+    for p in routed:
+        for sht in (1, 2, 3, 4, 5, 15):
+            w = wrapped(p["inp"], sht)
+            cases.append(dict(k="dec", entry="plain", inp=w))
+            if sht in (1, 3): cases.append(dict(k="dec", entry="gmm", inp=w))
     # nested messages: every container-like element of every message carrying the minimal instance of every message of both
     # families (and, for the payload container of the NAS transport messages, every payload container type): the decoder
     # populates ONE body, the outer one, whatever the contents look like
